@@ -2751,6 +2751,12 @@ func (s *Server) serveConnCounted(c net.Conn, countConcurrency bool) error {
 
 		if s.stop.Load() == 1 {
 			err = nil
+			if bw != nil {
+				// The flush was skipped above if further pipelined requests
+				// are buffered; they are not going to be served, so the
+				// responses written so far have to leave now.
+				err = bw.Flush()
+			}
 			break
 		}
 	}
